@@ -6,7 +6,7 @@ Everything is a pure function of the RandomState handed in, so a case spec
 import numpy as np
 
 VARIANTS = ['plain', 'unbalanced', 'offset', 'small_scale', 'large_scale',
-            'illcond', 'dyadic', 'int']
+            'illcond', 'dyadic', 'int', 'separated']
 
 
 def random_orthogonal(rng, d):
@@ -40,7 +40,8 @@ def well_formed(rng, d=None, n_classes=None, variant='plain', dmax=8,
   if variant == 'illcond':
     s = np.logspace(0, -3, d)
   R = random_orthogonal(rng, d)
-  shifts = rng.randn(c, d) * 1.5
+  # ('separated': classes far apart, so that margin violations are sparse)
+  shifts = rng.randn(c, d) * (6.0 if variant == 'separated' else 1.5)
   X = (rng.randn(n, d) * s).dot(R) + shifts[y]
   if variant == 'offset':
     X = X + 1e3
